@@ -1154,6 +1154,11 @@ def slide(
                 )
 
                 if event.name == InternalEvents.START_FLOW:
+                    if "flow_id" not in event.arguments:
+                        # Fail the sending flow instead of the processing of the internal event
+                        raise ColangRuntimeError(
+                            f"Event '{InternalEvents.START_FLOW}' needs a 'flow_id' parameter!"
+                        )
                     # Add flow hierarchy information to event
                     event.arguments.update(
                         {
